@@ -145,7 +145,13 @@ def pairing(ctx, fi):
   red = [s for s in loop.body if isinstance(s, ast.If) and any(norm_text(t).endswith('.total_time') for x in s.body for t, _v, _o in U.store_targets(x))]
   app = [s for s in loop.body if isinstance(s, ast.Expr) and isinstance(s.value, ast.Call) and isinstance(s.value.func, ast.Attribute) and s.value.func.attr == 'append']
   ok = len(red) == 1 and len(app) == 1
-  if ok:
+  # equivalent idiom: <seq>.total_time = max(<seq>.total_time, <note>.end), unconditionally in the collecting loop
+  mx = [s for s in loop.body if isinstance(s, ast.Assign) and len(s.targets) == 1 and norm_text(s.targets[0]).endswith('.total_time') and isinstance(s.value, ast.Call) and
+        dotted(s.value.func) == 'max' and not s.value.keywords and sorted(norm_text(a) for a in s.value.args) == sorted([norm_text(s.targets[0]), '%s.end' % v])]
+  if not red and len(mx) == 1 and len(app) == 1:
+    red = mx
+    ok = True
+  elif ok:
     parts = red[0].test.values if isinstance(red[0].test, ast.BoolOp) and isinstance(red[0].test.op, ast.Or) else [red[0].test]
     gt = any(U.compare_full(p) is not None and U.compare_full(p)[1] == '<' and U.compare_full(p)[0].endswith('.total_time') and U.compare_full(p)[2] == '%s.end' % v for p in parts)
     st = red[0].body[0]
@@ -185,6 +191,10 @@ def wrappers(ctx):
 
 
 MUTANTS = [
+    Mutant('seed C16_b: total_time overwritten per instrument by max(..., default=...)', F, "    for midi_note in midi_instrument.notes:\n      if not sequence.total_time or midi_note.end > sequence.total_time:\n        sequence.total_time = midi_note.end\n",
+           "    sequence.total_time = max((midi_note.end for midi_note in midi_instrument.notes), default=sequence.total_time)\n    for midi_note in midi_instrument.notes:\n", rule='PAIR/total-time'),
+    Mutant('running maximum written with max() (harmless)', F, "      if not sequence.total_time or midi_note.end > sequence.total_time:\n        sequence.total_time = midi_note.end\n",
+           "      sequence.total_time = max(sequence.total_time, midi_note.end)\n", expect='silent'),
     Mutant('denominator store outside its handler', F, "    try:\n      # Denominator can be too large for int32.\n      time_signature.denominator = midi_time.denominator\n    except ValueError:\n      raise MIDIConversionError('Invalid time signature denominator %d' %\n                                midi_time.denominator)\n",
            "    time_signature.denominator = midi_time.denominator\n", rule='ESC/may-escape'),
     Mutant('constructor guarded for ValueError only', F, "      midi = pretty_midi.PrettyMIDI(io.BytesIO(midi_data))\n    except:\n", "      midi = pretty_midi.PrettyMIDI(io.BytesIO(midi_data))\n    except ValueError:\n", rule='CTOR/'),
